@@ -855,7 +855,11 @@ class AdapterLookupBase:
             if not extendors:
                 continue
 
-            components = byorder[order]
+            try:
+                components = byorder[order]
+            except IndexError:
+                # Emptied and trimmed by a concurrent ``unregister``.
+                continue
             result = _lookup(components, required, extendors, name, 0,
                              order)
             if result is not None:
@@ -889,7 +893,11 @@ class AdapterLookupBase:
             extendors = registry._v_lookup._extendors.get(provided)
             if not extendors:
                 continue
-            components = byorder[order]
+            try:
+                components = byorder[order]
+            except IndexError:
+                # Emptied and trimmed by a concurrent ``unregister``.
+                continue
             _lookupAll(components, required, extendors, result, 0, order)
 
         return tuple(result.items())
@@ -915,7 +923,12 @@ class AdapterLookupBase:
                 if extendors is None:
                     continue
 
-            _subscriptions(byorder[order], required, extendors, '',
+            try:
+                components = byorder[order]
+            except IndexError:
+                # Emptied and trimmed by a concurrent ``unsubscribe``.
+                continue
+            _subscriptions(components, required, extendors, '',
                            result, 0, order)
 
         return result
